@@ -8,12 +8,22 @@ package main
 // task scope and returns at once (or, for odd ids, does the work synchronously).  Tasks with random
 // lock maps are submitted through Runner.Run; every piece of work logs begin/end in one global
 // sequence and the recorded intervals must respect the lock maps.
+//
+// Coverage audit additions: (1) the outside holder of the forced rounds is a holder like any
+// other (a direct user of the CommonSharedMutex service and a task naming the same resource
+// exclude each other) and a bystander task with a private resource must finish while t0 is
+// parked on the outside holder's resource; (2) rounds of pairwise compatible tasks whose bodies
+// must all be running at the same time; (3) rounds in which bodies FAIL (Run returns an error /
+// the work left on the task scope reports one), every task in a scope of its own: the locks of
+// a failed task must be given back, the others get their turn.
 
 import (
+	"errors"
 	"fmt"
 	"strconv"
 	"strings"
 	"sync"
+	"sync/atomic"
 	"time"
 
 	"github.com/goatcms/goatcore/app"
@@ -43,9 +53,25 @@ func (l *c15RunLog) add(i int, acq bool) {
 	l.mu.Unlock()
 }
 
+func (l *c15RunLog) ended(i int) bool {
+	l.mu.Lock()
+	defer l.mu.Unlock()
+	for _, e := range l.ev {
+		if e.I == i && !e.Acq {
+			return true
+		}
+	}
+	return false
+}
+
 type c15ProbeBuilder struct {
 	log  *c15RunLog
 	hold func(i int) time.Duration
+	// fail: 0 the body succeeds, 1 Run returns an error after the work, 2 the work reports an
+	// error to the task scope (Scope().Wait() of the runner returns it)
+	fail func(i int) int
+	// meet is called inside the body, between its begin and end events (may be nil)
+	meet func(i int)
 }
 
 func (b *c15ProbeBuilder) Is(name string) bool { return strings.HasPrefix(name, "probe:") }
@@ -63,13 +89,21 @@ type c15ProbeSandbox struct {
 }
 
 func (s *c15ProbeSandbox) Run(ctx app.IOContext) error {
+	mode := s.b.fail(s.i)
 	work := func() {
 		s.b.log.add(s.i, true)
+		s.b.meet(s.i)
 		time.Sleep(s.b.hold(s.i))
 		s.b.log.add(s.i, false)
+		if mode == 2 {
+			ctx.Scope().AppendError(errors.New("c15 probe: the work of this body fails"))
+		}
 	}
-	if s.i%3 == 1 { // synchronous body
+	if s.i%3 == 1 || mode == 1 { // synchronous body
 		work()
+		if mode == 1 {
+			return errors.New("c15 probe: this body fails")
+		}
 		return nil
 	}
 	// asynchronous body: registered on the task scope, Run returns at once
@@ -81,6 +115,24 @@ func (s *c15ProbeSandbox) Run(ctx app.IOContext) error {
 		work()
 	}()
 	return nil
+}
+
+// c15Exclusion: the recorded begin/end events respect the lock maps.
+func c15Exclusion(tr []c15Event, maps []commservices.LockMap) (bad string) {
+	active := map[int]bool{}
+	for _, e := range tr {
+		if e.Acq {
+			for j := range active {
+				if !c15Compatible(maps[e.I], maps[j]) && bad == "" {
+					bad = fmt.Sprintf("holders %d and %d were inside at the same time although their lock maps conflict", j, e.I)
+				}
+			}
+			active[e.I] = true
+		} else {
+			delete(active, e.I)
+		}
+	}
+	return bad
 }
 
 func c15RunnerProbe(o *Out, rng *RNG, rounds int) {
@@ -103,17 +155,33 @@ func c15RunnerProbe(o *Out, rng *RNG, rounds int) {
 	must(mapp.DependencyProvider().InjectTo(&deps))
 	log := &c15RunLog{}
 	holds := map[int]time.Duration{}
+	fails := map[int]int{}
+	var meet func(i int)
 	var holdMu sync.Mutex
 	deps.Manager.Add(&c15ProbeBuilder{log: log, hold: func(i int) time.Duration {
 		holdMu.Lock()
 		defer holdMu.Unlock()
 		return holds[i]
+	}, fail: func(i int) int {
+		holdMu.Lock()
+		defer holdMu.Unlock()
+		return fails[i]
+	}, meet: func(i int) {
+		holdMu.Lock()
+		f := meet
+		holdMu.Unlock()
+		if f != nil {
+			f(i)
+		}
 	}})
 	cwd, err := memfs.NewFilespace()
 	must(err)
 	names := []string{"a", "b", "c"}
 	for round := 0; round < rounds; round++ {
 		n := 2 + rng.Intn(5)
+		if round%3 == 0 && n < 3 {
+			n = 3
+		}
 		maps := make([]commservices.LockMap, n)
 		holdMu.Lock()
 		for i := range maps {
@@ -140,14 +208,23 @@ func c15RunnerProbe(o *Out, rng *RNG, rounds int) {
 		// names "0" and x) and t1 (x, waits for t0) are submitted, and lets go afterwards.
 		waits := make([][]string, n)
 		var outside commservices.UnlockHandler
+		// The outside holder is holder n of the round (a direct user of the shared mutex service
+		// excludes a task that names the same resource), and t2 is a bystander: its only resource
+		// is its own, it waits for nobody, so it must finish while t0 is still parked on "0".
 		if round%3 == 0 {
 			outside = deps.Mutex.Lock(commservices.LockMap{"0": commservices.LockRW})
+			log.add(n, true)
 			maps[0] = commservices.LockMap{"0": commservices.LockRW, "a": commservices.LockRW}
 			maps[1] = commservices.LockMap{"a": commservices.LockRW}
+			maps[2] = commservices.LockMap{"bys": commservices.LockRW}
 			waits[1] = []string{"t0"}
-			mapsDesc[0], mapsDesc[1] = descRows(c15Rows(maps[0])), descRows(c15Rows(maps[1]))
+			mapsDesc[0], mapsDesc[1], mapsDesc[2] = descRows(c15Rows(maps[0])), descRows(c15Rows(maps[1])), descRows(c15Rows(maps[2]))
+			desc["outside"] = fmt.Sprintf("holder %d = a direct holder of {\"0\": W}, from before the submissions until t2 has finished (3 s at most)", n)
 		}
 		for i := 1; i < n; i++ {
+			if outside != nil && i == 2 {
+				continue
+			}
 			for j := 0; j < i; j++ {
 				if rng.Chance(25) {
 					waits[i] = append(waits[i], fmt.Sprintf("t%d", j))
@@ -162,9 +239,22 @@ func c15RunnerProbe(o *Out, rng *RNG, rounds int) {
 			}); err != nil {
 				subErr = err.Error()
 			}
+			if outside != nil && i == 0 {
+				time.Sleep(time.Millisecond) // t0 reaches "wait for resources" first
+			}
 		}
 		if outside != nil {
 			time.Sleep(2 * time.Millisecond) // let both goroutines reach their first blocking point
+			deadline := time.Now().Add(3 * time.Second)
+			for !log.ended(2) && time.Now().Before(deadline) && subErr == "" {
+				time.Sleep(200 * time.Microsecond)
+			}
+			if !log.ended(2) && subErr == "" {
+				o.Stat("runner_bystander_blocked")
+				o.Fail("no_serialisation", "task t2, whose only resource is its own and which waits for nobody, did not run within 3 s while task t0 was waiting for a resource held elsewhere: "+
+					"the runner serialises tasks with disjoint lock maps", "runner-bystander", desc)
+			}
+			log.add(n, false)
 			outside.Unlock()
 		}
 		done := make(chan error, 1)
@@ -183,22 +273,19 @@ func c15RunnerProbe(o *Out, rng *RNG, rounds int) {
 		tr := append([]c15Event{}, log.ev...)
 		log.mu.Unlock()
 		desc["trace"] = c15EventsDesc(tr)
-		active := map[int]bool{}
-		bad := ""
-		for _, e := range tr {
-			if e.Acq {
-				for j := range active {
-					if !c15Compatible(maps[e.I], maps[j]) && bad == "" {
-						bad = fmt.Sprintf("the bodies of tasks %d and %d ran at the same time although their lock maps conflict (the runner must hold a task's locks until its scope has finished)", j, e.I)
-					}
-				}
-				active[e.I] = true
-			} else {
-				delete(active, e.I)
-			}
+		holders := n
+		allMaps := maps
+		if outside != nil {
+			holders = n + 1
+			allMaps = append(append([]commservices.LockMap{}, maps...), commservices.LockMap{"0": commservices.LockRW})
 		}
-		if bad == "" && subErr == "" && (len(tr) != 2*n || len(active) != 0) {
-			bad = fmt.Sprintf("trace incomplete: %d events for %d tasks", len(tr), n)
+		bad := c15Exclusion(tr, allMaps)
+		if bad != "" {
+			bad = "the bodies of two tasks (or a task's body and the section of a direct holder of the shared mutex) overlapped: " + bad +
+				" (the runner must hold a task's locks, under the names the task gave, until its scope has finished)"
+		}
+		if bad == "" && subErr == "" && len(tr) != 2*holders {
+			bad = fmt.Sprintf("trace incomplete: %d events for %d holders", len(tr), holders)
 		}
 		if bad != "" {
 			o.Fail("exclusion", bad, "runner-exclusion", desc)
@@ -214,4 +301,183 @@ func c15RunnerProbe(o *Out, rng *RNG, rounds int) {
 		o.Stat("runner_lock_rounds")
 		o.CountEval(fmt.Sprintf("rl:%d:%v", round, mapsDesc), contended)
 	}
+	env := &c15RunnerEnv{runner: deps.Runner, unit: deps.TasksUnit, log: log, cfg: &holdMu, holds: holds, fails: fails,
+		setMeet: func(f func(int)) {
+			holdMu.Lock()
+			meet = f
+			holdMu.Unlock()
+		}}
+	c15RunnerExtra(o, rng, env, (rounds+2)/3)
+}
+
+// c15RunnerExtra: rounds (2) and (3) of the header comment.  Returns true after a hang.
+type c15RunnerEnv struct {
+	runner  pipservices.Runner
+	unit    pipservices.TasksUnit
+	log     *c15RunLog
+	cfg     *sync.Mutex
+	holds   map[int]time.Duration
+	fails   map[int]int
+	setMeet func(func(i int))
+}
+
+func (env *c15RunnerEnv) submit(root app.Scope, i int, m commservices.LockMap) error {
+	cwd, err := memfs.NewFilespace()
+	must(err)
+	return env.runner.Run(pipservices.Pip{
+		Context: pipservices.PipContext{In: gio.NewInput(strings.NewReader("")), Out: gio.NewNilOutput(), Err: gio.NewNilOutput(), CWD: cwd, Scope: root},
+		Name:    fmt.Sprintf("t%d", i), Namespaces: namespaces.NewNamespaces(pipservices.NamasepacesParams{}), Sandbox: fmt.Sprintf("probe:%d", i), Lock: m,
+	})
+}
+
+func c15RunnerExtra(o *Out, rng *RNG, env *c15RunnerEnv, rounds int) (hung bool) {
+	waitAll := func(mgrs []pipservices.TasksManager, d time.Duration) bool {
+		done := make(chan struct{})
+		go func() {
+			for _, m := range mgrs {
+				m.Wait()
+			}
+			close(done)
+		}()
+		select {
+		case <-done:
+			return true
+		case <-time.After(d):
+			return false
+		}
+	}
+	reset := func(n int, fail func(i int) int) {
+		env.cfg.Lock()
+		for i := 0; i < n; i++ {
+			env.holds[i] = time.Duration(200+rng.Intn(1500)) * time.Microsecond
+			env.fails[i] = fail(i)
+		}
+		env.cfg.Unlock()
+		env.log.mu.Lock()
+		env.log.ev = nil
+		env.log.mu.Unlock()
+	}
+	defer func() {
+		env.setMeet(nil)
+		reset(8, func(int) int { return 0 })
+	}()
+	serialised := 0
+	for round := 0; round < rounds; round++ {
+		// ---- (2) pairwise compatible tasks: all bodies running at the same time
+		if serialised < 2 {
+			k := 2 + rng.Intn(4)
+			maps := make([]commservices.LockMap, k)
+			for i := range maps {
+				maps[i] = commservices.LockMap{}
+			}
+			for _, nm := range []string{"a", "b", "c", "d", "ns:a", "ns:ab"} {
+				switch rng.Intn(3) {
+				case 0:
+					for i := range maps {
+						if rng.Chance(60) {
+							maps[i][nm] = commservices.LockR
+						}
+					}
+				case 1:
+					maps[rng.Intn(k)][nm] = rng.Chance(70)
+				}
+			}
+			reset(k, func(int) int { return 0 })
+			var inside int32
+			all := make(chan struct{})
+			giveup := make(chan struct{})
+			env.setMeet(func(i int) {
+				if int(atomic.AddInt32(&inside, 1)) == k {
+					close(all)
+				}
+				select {
+				case <-all:
+				case <-giveup:
+				}
+			})
+			root := scope.New(scope.Params{})
+			mgr, err := env.unit.FromScope(root)
+			must(err)
+			desc := map[string]interface{}{"op": "runner-all-inside", "maps": c15MapsDesc(maps)}
+			for i := range maps {
+				must(env.submit(root, i, maps[i]))
+			}
+			select {
+			case <-all:
+				o.Stat("runner_all_inside_ok")
+			case <-time.After(3 * time.Second):
+				close(giveup)
+				serialised++
+				o.Stat("runner_all_inside_timeout")
+				o.Fail("no_serialisation", fmt.Sprintf("the bodies of %d tasks with pairwise compatible lock maps were not all running at the same time within 3 s (only %d were started)", k, atomic.LoadInt32(&inside)),
+					"runner-serialised", desc)
+			}
+			ok := waitAll([]pipservices.TasksManager{mgr}, 15*time.Second)
+			env.setMeet(nil)
+			o.CountEval(fmt.Sprintf("rai:%v", desc["maps"]), true)
+			if !ok {
+				o.Fail("no_deadlock", "tasks with pairwise compatible lock maps did not all finish within 15 s", "runner-hang", desc)
+				return true
+			}
+		}
+		// ---- (3) failing bodies, one scope (and tasks manager) per task
+		{
+			n := 2 + rng.Intn(3)
+			names := []string{"a", "b", "c"}
+			maps := make([]commservices.LockMap, n)
+			for i := range maps {
+				maps[i] = c15RandMap(rng, names, 2, 75)
+			}
+			// t0 fails and t1 wants one of its names
+			if len(maps[0]) == 0 {
+				maps[0]["a"] = commservices.LockRW
+			}
+			k0 := c15SortedKeys(maps[0])
+			shared := k0[rng.Intn(len(k0))]
+			maps[1][shared] = maps[0][shared] || rng.Chance(60)
+			if !maps[1][shared] {
+				maps[0][shared] = commservices.LockRW
+			}
+			modes := make([]int, n)
+			for i := range modes {
+				if i == 0 {
+					modes[i] = 1 + rng.Intn(2)
+				} else if rng.Chance(40) {
+					modes[i] = 1 + rng.Intn(2)
+				}
+			}
+			reset(n, func(i int) int { return modes[i] })
+			env.setMeet(nil)
+			desc := map[string]interface{}{"op": "runner-failing-bodies", "maps": c15MapsDesc(maps), "fail_modes": modes,
+				"note": "one scope per task; mode 1: the sandbox's Run returns an error, mode 2: the work left on the task scope reports an error"}
+			mgrs := make([]pipservices.TasksManager, n)
+			for i := range maps {
+				root := scope.New(scope.Params{})
+				mgr, err := env.unit.FromScope(root)
+				must(err)
+				mgrs[i] = mgr
+				must(env.submit(root, i, maps[i]))
+			}
+			ok := waitAll(mgrs, 15*time.Second)
+			env.log.mu.Lock()
+			tr := append([]c15Event{}, env.log.ev...)
+			env.log.mu.Unlock()
+			desc["trace"] = c15EventsDesc(tr)
+			o.CountEval(fmt.Sprintf("rfb:%v:%v", desc["maps"], modes), true)
+			if !ok {
+				o.Stat("runner_failing_hang")
+				o.Fail("no_deadlock", "tasks naming the resources of a task whose body FAILED did not get their turn within 15 s: the runner kept the named locks of the failed task", "runner-failed-body-hang", desc)
+				return true
+			}
+			bad := c15Exclusion(tr, maps)
+			if bad == "" && len(tr) != 2*n {
+				bad = fmt.Sprintf("trace incomplete: %d events for %d tasks", len(tr), n)
+			}
+			if bad != "" {
+				o.Fail("exclusion", "failing bodies: "+bad, "runner-exclusion", desc)
+			}
+			o.Stat("runner_failing_rounds")
+		}
+	}
+	return false
 }
